@@ -15,6 +15,32 @@ pub enum Script {
     /// per write call: 0 = accept all, 1..=200 = accept at most that many bytes (short write), 255 = Interrupted.
     /// After the pattern is exhausted everything is accepted; `terminal` optionally fails at a byte offset.
     Schedule { pattern: Vec<u8>, terminal: Option<(usize, u8)> },
+    /// the j-th write call panics (a sink whose own code unwinds, e.g. `tx.send(..).unwrap()` on a closed channel)
+    PanicAtCall { call: usize },
+}
+
+/// Number of failure kinds `error_of` distinguishes (kind 6 is "Ok(0)" and handled by the sink itself).
+pub const N_KINDS: u8 = 20;
+
+/// The injected error: kinds 0..=5 and 7 are built from an ErrorKind (no OS code); 8..=10 and 17 further ErrorKinds a library
+/// might single out (InvalidData, InvalidInput, UnexpectedEof, Unsupported); 11..=16, 18, 19 are genuine OS errors
+/// (ENOSPC, EDQUOT, EFBIG, EIO, EPIPE, EAGAIN, ENOMEM, EINTR-free EBADF) as a file or socket would return them.
+pub fn error_of(k: u8) -> io::Error {
+    match k {
+        8 => io::Error::new(ErrorKind::InvalidData, "injected fault"),
+        9 => io::Error::new(ErrorKind::InvalidInput, "injected fault"),
+        10 => io::Error::new(ErrorKind::UnexpectedEof, "injected fault"),
+        11 => io::Error::from_raw_os_error(28),
+        12 => io::Error::from_raw_os_error(122),
+        13 => io::Error::from_raw_os_error(27),
+        14 => io::Error::from_raw_os_error(5),
+        15 => io::Error::from_raw_os_error(32),
+        16 => io::Error::from_raw_os_error(11),
+        17 => io::Error::new(ErrorKind::Unsupported, "injected fault"),
+        18 => io::Error::from_raw_os_error(12),
+        19 => io::Error::from_raw_os_error(9),
+        _ => io::Error::new(kind_of(k), "injected fault"),
+    }
 }
 
 pub fn kind_of(k: u8) -> ErrorKind {
@@ -90,13 +116,22 @@ impl Write for FaultSink {
             if kind == 6 {
                 Ok(0)
             } else {
-                Err(io::Error::new(kind_of(kind), "injected fault"))
+                Err(error_of(kind))
             }
         };
         match &self.script {
             Script::FailAtCall { call, kind } => {
                 if call_no >= *call {
                     return fail(&mut s, *kind);
+                }
+                s.accepted.extend_from_slice(buf);
+                Ok(buf.len())
+            }
+            Script::PanicAtCall { call } => {
+                if call_no == *call {
+                    s.terminal_hit = true;
+                    drop(s);
+                    panic!("injected panic inside the sink's write()");
                 }
                 s.accepted.extend_from_slice(buf);
                 Ok(buf.len())
